@@ -96,8 +96,12 @@ def run_case(case):
     w = RecWorld()
     random.seed(seed)
     kw = {} if (evenly and case.get("evenly_omitted")) else {"evenly": evenly}     # documented default: evenly=True
+    # the limit is a number: the documented default is itself a float (inf), so a finite limit may also arrive as a
+    # float with an integral value (2.0, e.g. the result of a division or of math.ceil on some platforms)
     if mc is not None:
-        kw["max_connects"] = mc
+        kw["max_connects"] = float(mc) if case.get("mc_kind") == "float" else mc
+    elif case.get("mc_kind") == "inf":
+        kw["max_connects"] = float("inf")
     out = []
     try:
         ret = bounded(lambda: util.connect_randomly(w, src_arg, dest_arg, *attrs, **kw), 500 * (ns + nd) + 10000)
@@ -264,6 +268,10 @@ def shard(prop, tier, seed, shard, nshards):
                         src_kind=("list", "tuple")[(s // len(DEST_KINDS)) % 2])
             if evenly and s % 5 == 4:
                 case["evenly_omitted"] = True
+            if mc is not None and s % 3 == 2:
+                case["mc_kind"] = "float"
+            elif mc is None and s % 7 == 3:
+                case["mc_kind"] = "inf"
             cls = ["evenly" if evenly else "random",
                    "boundary" if (mc is not None and ns == nd * mc) else "inside", "dest=" + case["dest_kind"]]
             acc.record(case, nontrivial(case), cls)
